@@ -152,6 +152,12 @@ def gen(seed, family=None, knobs=None):
             services, apps = _host_software(rnd, kind, ips, knobs)
             if kind == "computer" and not any(a["type"] == "database-client" for a in apps) and rnd.random() < 0.7:
                 apps.append({"type": "database-client", "options": {"db_server_ip": ips["db"]}})
+        # system software of the node type re-listed with its own options (the scenario's value wins over node-level defaults)
+        rnd_s = random.Random(f"{seed}-{name}-system-software-options")
+        if rnd_s.random() < 0.3 and not any(x["type"] == "dns-client" for x in services):
+            services = services + [{"type": "dns-client", "options": {"dns_server": ips["db"] if rnd_s.random() < 0.7 else ips["dns"]}}]
+        if rnd_s.random() < 0.25 and not any(x["type"] == "ntp-client" for x in services):
+            services = services + [{"type": "ntp-client", "options": {"ntp_server_ip": ips["web"]}}]
         if services:
             kw["services"] = services
         if apps:
